@@ -366,6 +366,25 @@ def check_vs_operations(model, result):
         if conv(val) != got:
             bad.append(("metrics.vs_operation." + name, "metric says %r, %s says %r" % (
                 got, cls.__name__, conv(val))))
+    # constraint-kind listings against the model's own per-constraint predicates
+    preds = [("Simple constraints", "is_simple_constraint"),
+             ("Requires constraints", "is_requires_constraint"),
+             ("Excludes constraints", "is_excludes_constraint"),
+             ("Complex constraints", "is_complex_constraint"),
+             ("Pseudo-complex constraints", "is_pseudocomplex_constraint"),
+             ("Strict-complex constraints", "is_strictcomplex_constraint")]
+    for name, pred in preds:
+        if name not in byname or not isinstance(byname[name].get("result"), (list, tuple)):
+            continue
+        try:
+            want = sorted(str(c) for c in model.get_constraints() if getattr(c, pred)())
+        except Exception:  # noqa: BLE001
+            continue
+        got = sorted(str(x) for x in byname[name]["result"])
+        if got != want:
+            bad.append(("metrics.vs_predicate." + name, "metric lists %d constraint(s), %s() "
+                        "holds for %d: %r vs %r" % (len(got), pred, len(want), got[:3],
+                                                    want[:3])))
     if "Leaf features" in byname:
         ok, val = run(ops.FMCountLeafs)
         if ok and val != byname["Leaf features"].get("size"):
